@@ -18,7 +18,7 @@ from fractions import Fraction
 from harness import core
 
 MANIFEST_ENTRY = {
-    "text": "Lean theorem C15 proves C15_statement over the model of the five-level propagation (global parameter files, site type, site, equipment group, source) instantiated with the key tables extracted from the source: for all parameter files, infrastructure files and samples, every source carries for every propagating parameter the value of the most granular level that specifies it and the global one if none does (most_granular_wins, most_granular_wins_global, resolve_eq_last_specified, unspecified_is_identity by list induction over any number of levels; source_most_granular_wins, source_production_rate_spec, source_coverage_most_granular_wins, group_survey_spec, site_most_granular_wins, placeholder_second_source: the dictionary-passing model of the code equals these closed forms under decidable well-formedness of the key tables), per-site production rate, survey time and survey cost split over groups and components add back up exactly over the rationals (split_conserved, placeholder_split_conserved, survey_split_conserved, site_production_rate_conserved(_nonrep), site_cost_conserved, site_time_conserved), a sample of n distinct rows yields exactly n sites with distinct ids (site_count, site_ids, site_ids_distinct) with the groups, components and sources the files describe (structure_groups_named/_numeric, structure_components, structure_sources_file/_placeholder(_ctx), structure_placeholder_counts). The key tables (which key each level uses for each parameter, the scaled and popped entries, the un-prefixing rule of the source level) are re-extracted from the source by an ast pass on every run and the obligations over them (tables_same_key_every_level, tables_level_keys_agree, tables_level_meth_keys_agree, tables_level_keys_cover, tables_unprefix_rule, tables_scaled_entries, tables_pops, tables_placeholder_names, tables_placeholder_shared_dict, tables_global_paths) are discharged by decide. The model is tied to the real Infrastructure/Site/Equipment_Group/Component/Source classes by differential correspondence on generated input folders on every run, and the property's clauses are evaluated directly on the constructed objects.",
+    "text": "Lean theorem C15 proves C15_statement over the model of the five-level propagation (global parameter files, site type, site, equipment group, source) instantiated with the key tables extracted from the source: for all parameter files, infrastructure files and samples, every source carries for every propagating parameter the value of the most granular level that specifies it and the global one if none does (most_granular_wins, most_granular_wins_global, resolve_eq_last_specified, unspecified_is_identity by list induction over any number of levels; source_most_granular_wins, source_production_rate_spec, source_coverage_most_granular_wins, group_survey_spec, site_most_granular_wins, placeholder_second_source: the dictionary-passing model of the code equals these closed forms under decidable well-formedness of the key tables), per-site production rate, survey time and survey cost split over groups and components add back up exactly over the rationals (split_conserved, placeholder_split_conserved, survey_split_conserved, site_production_rate_conserved(_nonrep), site_cost_conserved, site_time_conserved; source_rate_is_component_rate, mem_componentSources, observed_component_rate and site_source_rates_conserved state the production-rate clause on Source._emis_prod_rate of one un-overridden source per component; guards: whole-number equipment cell, no equipment-level override, every group has a component — conservation_counterexample_empty_group and conservation_counterexample_fractional_equipment prove the unguarded clause false, known findings F9b/F9c), a sample of n distinct rows yields exactly n sites with distinct ids (site_count, site_ids, site_ids_distinct) with the groups, components and sources the files describe (structure_groups_named/_numeric, structure_components, site_component_count, group_source_count, component_source_count_file, structure_sources_file/_placeholder(_ctx), structure_placeholder_counts). The key tables (which key each level uses for each parameter, the scaled and popped entries, the un-prefixing rule of the source level) are re-extracted from the source by an ast pass on every run and the obligations over them (tables_same_key_every_level, tables_level_keys_agree, tables_level_meth_keys_agree, tables_level_keys_cover, tables_unprefix_rule, tables_scaled_entries, tables_pops, tables_placeholder_names, tables_placeholder_shared_dict, tables_global_paths) are discharged by decide. The model is tied to the real Infrastructure/Site/Equipment_Group/Component/Source classes by differential correspondence on generated input folders on every run, and the property's clauses are evaluated directly on the constructed objects.",
     "design_ref": "DESIGN.md 5.15",
     "note": "trusted: Lean kernel + propext/Classical.choice/Quot.sound; the hand-written model (tied by sampled correspondence, not proof); the ast extractor of the key tables; harness adapters; CSV parsing by pandas (cells are read back and compared with the intended values on every case) and DataFrame.sample (the sampled rows are an input of the model, distinctness is checked on the implementation); exact-double grids (production rates 45m/2^13 resp. 9m/2^15, survey time/cost multiples of 1.5) so no tolerance is used; emission generation from the effective values is C16",
     "technique": "Lean 4 list-induction and closed-form proofs over a dictionary-passing model + key tables extracted from the source (decide) + differential correspondence with the real classes + direct oracle",
@@ -46,6 +46,27 @@ def allowed_k(c):
     return [k for k in (0, 1, 2, 3) if (72 * 64) % placeholder_divisor(c, k) == 0]
 
 
+def frac_safe_rates(q):
+    """production rates for a site whose equipment cell is the non-integer `q`: every float operation of
+    the placeholder branch (x*365*2, /q, /ceil(ceil(730x)/q)) is exact"""
+    out = []
+    for num in (9, 45):
+        for m in range(1, 60):
+            x = num * m / 2 ** 15
+            fx = Fraction(x)
+            if fx * 730 > 12:
+                continue
+            cnt = math.ceil(x * 365 * 2)
+            if cnt != math.ceil(fx * 730):
+                continue
+            per = math.ceil(cnt / q)
+            if per != math.ceil(Fraction(cnt) / Fraction(q)) or per == 0:
+                continue
+            if Fraction(x / q) == fx / Fraction(q) and Fraction(x / q / per) == fx / Fraction(q) / per:
+                out.append(x)
+    return sorted(set(out))
+
+
 # ----------------------------------------------------------------------------------------------
 # generator
 # ----------------------------------------------------------------------------------------------
@@ -60,6 +81,8 @@ class Gen:
         self.tb = tables
         self.grid_ok = grid_ok
         self.used = {}
+        self.frac_rates = None      # set for cases with a non-integer equipment cell
+        self.frac_durations = 0.1   # share of durations that are not whole days
 
     def fresh(self, dom, pool):
         """a value of the pool not yet used for this domain in this case (falls back to any)"""
@@ -76,12 +99,15 @@ class Gen:
         return self.rng.choice(["E%d" % i for i in range(1, 9)])
 
     def v_epr(self, numeric):
+        if self.frac_rates:
+            return self.rng.choice(self.frac_rates)
         if self.rng.random() < 0.04:
             return 0.0
         return epr_val(self.fresh("epr", self.grid_ok[numeric]), numeric)
 
     def v_dur(self):
-        return self.fresh("dur", range(1, 500))
+        d = self.fresh("dur", range(1, 500))
+        return d + 0.5 if self.rng.random() < self.frac_durations else d
 
     def v_flag(self):
         return self.rng.random() < 0.5
@@ -98,8 +124,8 @@ class Gen:
     def v_freq(self):
         return self.fresh("freq", range(1, 25))
 
-    def v_scaled(self):          # survey time / cost given per site: /2 and /3 are exact
-        return 1.5 * self.fresh("sc", range(1, 400))
+    def v_scaled(self):          # survey time / cost given per site: /2 and /3 (and /0.5 /1.5 /2.5) are exact
+        return (7.5 if self.frac_rates else 1.5) * self.fresh("sc", range(1, 400))
 
     def v_group(self):           # survey time / cost given per equipment group: any dyadic
         return 0.25 * self.fresh("sc", range(1, 900))
@@ -154,8 +180,13 @@ def gen_case(rng, tables, grid_ok, force=None):
     g = Gen(rng, tables, grid_ok)
     tb = tables
     force = force or {}
-    mode = force.get("mode") or rng.choice(["named", "named", "named", "numeric"])
+    frac_q = force.get("frac_equip")
+    mode = "numeric" if frac_q else (force.get("mode") or rng.choice(["named", "named", "named", "numeric"]))
     numeric = mode == "numeric"
+    if frac_q:
+        g.frac_rates = frac_safe_rates(frac_q)
+    if force.get("frac_duration"):
+        g.frac_durations = 0.7
     methods = list(rng.choice(METHOD_SETS))
     p_col = rng.choice([0.25, 0.5, 0.8])
     p_cell = rng.choice([0.3, 0.6, 0.9, 1.0])
@@ -165,18 +196,23 @@ def gen_case(rng, tables, grid_ok, force=None):
     # that a level whose constant deviates is caught
     plain = list(tb["globalPlain"])
     all_meth = list(tb["globalMeth"]) + [tb["siteDeploy"]]
-    want_reject = force.get("reject", rng.random() < 0.04)
+    want_reject = force.get("reject", rng.random() < 0.04) and not frac_q
+    if frac_q:
+        # one placeholder kind only (the split of the second rate would not be exact in doubles)
+        plain = [k for k in plain if k != non + tb["srcEpr"]]
 
     # global level -------------------------------------------------------------------------------
     glob = {}
-    for k in plain:
+    for k in tb["globalPlain"]:
         if k.endswith(tb["srcRd"]):
             glob[k] = [float(g.v_rd()) for _ in range(rng.choice([1, 1, 2, 3]))]
         elif k.endswith(tb["srcRc"]):
             glob[k] = [float(g.v_rc()) for _ in range(rng.choice([1, 1, 2]))]
         else:
             glob[k] = g.plain_value(k, numeric)
-    if numeric:
+    if frac_q:
+        glob[non + tb["srcEpr"]] = None
+    elif numeric:
         r = rng.random()
         if r < 0.2:
             glob[non + tb["srcEpr"]] = None
@@ -196,7 +232,7 @@ def gen_case(rng, tables, grid_ok, force=None):
             elif s == tb["yearsKey"]:
                 gm[s] = sorted(rng.sample(range(2023, 2028), rng.randint(0, 3)))
             elif s in (tb["eqTimeKey"], tb["eqCostKey"]):
-                gm[s] = rng.choice([g.v_scaled(), 6 * rng.randint(1, 60)])
+                gm[s] = rng.choice([g.v_scaled(), (30 if frac_q else 6) * rng.randint(1, 60)])
             else:
                 gm[s] = g.meth_value(s, "global")
         gmeth[me] = gm
@@ -261,11 +297,18 @@ def gen_case(rng, tables, grid_ok, force=None):
     if (not numeric) or rng.random() < 0.3:
         cols = add_cols("equipment", plain, [tb["eqTimeKey"], tb["eqCostKey"], tb["srcSpatial"], tb["srcTemporal"]], numeric)
         rows = []
+        empty = rng.choice(["e1", "e2", "e3"]) if force.get("empty_group", rng.random() < 0.05) else None
         for name in ("e1", "e2", "e3"):
             while True:
                 counts = {ct: rng.choice([0, 1, 1, 2, 3]) for ct in comp_types}
                 if 1 <= sum(counts.values()) <= 6:
                     break
+            if name == empty:
+                counts = {ct: 0 for ct in comp_types}      # an equipment group without components
+            if name == "e2" and force.get("blank_count"):
+                counts[comp_types[0]] = None               # a blank count cell: the column is read as floats
+            if name == "e2" and force.get("noninteger_count"):
+                counts[comp_types[0]] = 1.5
             row = {"equipment": name}
             row.update(counts)
             fill(row, cols, "equipment")
@@ -275,15 +318,17 @@ def gen_case(rng, tables, grid_ok, force=None):
         equipment = {"cols": ["equipment"] + ccols, "rows": rows}
 
     # site type file -----------------------------------------------------------------------------
-    have_types = rng.random() < 0.7
+    have_types = rng.random() < 0.7 or bool(force.get("type_equip_only"))
     type_names = ["A", "B"]
     site_equip_col = rng.random() < (0.6 if have_types else (0.8 if numeric else 1.0))
-    if not numeric and not have_types:
+    if (not numeric and not have_types) or frac_q:
         site_equip_col = True
     type_equip_col = have_types and ((not site_equip_col and (not numeric or rng.random() < 0.7))
                                      or rng.random() < 0.2)
     if not numeric and not site_equip_col:
         type_equip_col = True
+    if force.get("type_equip_only"):
+        site_equip_col, type_equip_col = False, True
 
     def equip_cell():
         if numeric:
@@ -306,7 +351,7 @@ def gen_case(rng, tables, grid_ok, force=None):
                  "rows": rows}
 
     # sites file ---------------------------------------------------------------------------------
-    n_rows = rng.choice([1, 2, 3, 3, 4, 5, 6])
+    n_rows = rng.choice([2, 3, 4] if force.get("dup_ids") else [1, 2, 3, 3, 4, 5, 6])
     cols = add_cols("sites", plain, all_meth, numeric)
     rows = []
     ids = rng.sample(range(1, 60), n_rows)
@@ -341,16 +386,32 @@ def gen_case(rng, tables, grid_ok, force=None):
             # possible when that split is exact for every site, otherwise give the sites a column
             site_equip_col = True
             sites["cols"].insert(4, "equipment")
+        as_float = force.get("float_equip", rng.random() < 0.15)
         if site_equip_col:
             for srow in rows:
-                srow["equipment"] = rng.choice(ks_for([srow]))
+                srow["equipment"] = frac_q or rng.choice(ks_for([srow]))
+                if as_float:
+                    srow["equipment"] = float(srow["equipment"])
         if type_equip_col:
             for trow in types["rows"]:
-                trow["equipment"] = rng.choice(ks_for([r for r in rows if r["site_type"] == trow["site_type"]]))
+                trow["equipment"] = frac_q or rng.choice(ks_for([r for r in rows if r["site_type"] == trow["site_type"]]))
+                if as_float:
+                    trow["equipment"] = float(trow["equipment"])
     n_sites = rng.choice([None, None, n_rows, rng.randint(1, n_rows), rng.randint(1, n_rows)])
     if want_reject:
         n_sites = None
-    return {"mode": mode, "methods": methods, "global": glob, "global_meth": gmeth, "types": types,
+    elif force.get("oversample", rng.random() < 0.02):
+        n_sites = n_rows + rng.randint(1, 2)            # more rows requested than the file has
+    elif force.get("zero_sample", rng.random() < 0.01):
+        n_sites = 0
+    if n_rows >= 2 and force.get("dup_ids", rng.random() < 0.03):
+        rows[1]["site_ID"] = rows[0]["site_ID"]            # the sites file repeats a site id
+    missing = {}
+    for me in methods:
+        if force.get("missing_meth", rng.random() < 0.08):
+            # parameters whose (last) path element is missing from the method's file: code default 0
+            missing[me] = rng.sample(list(tb["globalMeth"]), rng.randint(1, 2))
+    return {"mode": mode, "missing_meth": missing, "methods": methods, "global": glob, "global_meth": gmeth, "types": types,
             "sites": sites, "equipment": equipment, "sources": sources, "n_sites": n_sites,
             "np_seed": rng.randrange(1 << 30)}
 
@@ -416,13 +477,39 @@ def oracle(ctx, case, tables, status, world, picks, collect=None):
     site_rows = {str(r["site_ID"]): r for r in case["sites"]["rows"]}
     eq_rows = {r["equipment"]: r for r in case["equipment"]["rows"]} if case.get("equipment") else {}
     src_rows = case["sources"]["rows"] if case.get("sources") else None
-    G, GM = case["global"], case["global_meth"]
-    viol = ctx.violate
+    G = case["global"]
+    missing = case.get("missing_meth", {})
 
-    if status == "crash":
-        viol("C15:crash:" + world.split(":")[0], "the real code crashes while building the virtual world: " + world, inp)
-        return
-    expected_n = case["n_sites"] if case["n_sites"] is not None else len(case["sites"]["rows"])
+    class _GM(dict):
+        """global value of a method parameter: `val.get(path, 0)` — a parameter whose last path element is
+        missing from the method's file counts as 0"""
+
+        def __init__(self, me):
+            super().__init__(case["global_meth"][me])
+            self.me = me
+
+        def get(self, suf, default=None):
+            if suf in missing.get(self.me, []):
+                return 0
+            return super().get(suf, default)
+    GM = {me: _GM(me) for me in methods}
+    viol = ctx.violate
+    all_rows = case["sites"]["rows"]
+    expected_n = case["n_sites"] if case["n_sites"] is not None else len(all_rows)
+
+    def expected_crash():
+        """inputs the code refuses with an exception instead of sys.exit: a sample larger than the file;
+        a component-count column pandas reads as floats (blank / non-integer count) once a site with
+        named equipment is built"""
+        if expected_n > len(all_rows):
+            return "ValueError"
+        if P.float_count_column(case, tables):
+            rows = [all_rows[i] for i in picks] if picks is not None else all_rows
+            for srow in rows:
+                trow = types[srow["site_type"]] if types is not None else None
+                if isinstance(site_equipment(srow, trow), str):
+                    return "TypeError"
+        return None
 
     def site_equipment(srow, trow):
         if "equipment" in case["sites"]["cols"]:
@@ -471,9 +558,24 @@ def oracle(ctx, case, tables, status, world, picks, collect=None):
                                 return True
         return False
 
+    if status == "crash" and expected_n == 0 and world.startswith("ValueError: Cannot set a DataFrame") \
+            and "equipment" not in case["sites"]["cols"]:
+        viol("C15:crash:empty-sample-with-site-type-equipment",
+             "a sample of 0 sites crashes when the equipment column is taken from the site type file: " + world, inp)
+        return
+    if status == "crash":
+        why = expected_crash()
+        if why and world.startswith(why):
+            ctx.count("expected-exception:" + why)
+        elif not (why or expected_reject()):
+            viol("C15:crash:" + world.split(":")[0], "the real code crashes while building the virtual world: " + world, inp)
+        return
     if status == "reject":
         if not expected_reject():
             viol("C15:unexpected-exit", "the real code exits (sys.exit) on an input that specifies every required value", inp)
+        return
+    if expected_crash():
+        viol("C15:missing-exception", "a world was built from a sample larger than the file / from non-integer component counts", inp)
         return
     if expected_reject():
         # every row is sampled in these cases, so the exit is expected
@@ -485,22 +587,31 @@ def oracle(ctx, case, tables, status, world, picks, collect=None):
     ids = [s["sid"] for s in world]
     if len(world) != expected_n:
         viol("C15:site-count", f"{len(world)} sites built, {expected_n} requested", inp)
-    if len(set(ids)) != len(ids):
-        viol("C15:site-distinct", "the same site was sampled twice", inp)
-    if not set(ids) <= set(site_rows):
-        viol("C15:site-unknown", "a site that is not in the sites file", inp)
+    if picks is None or len(picks) != len(world) or any(not (0 <= i < len(all_rows)) for i in picks):
+        viol("C15:site-unknown", f"the sites are not rows of the sites file (sample {picks})", inp)
+        return
+    if len(set(picks)) != len(picks):
+        viol("C15:site-distinct", f"the same row of the sites file was sampled twice (sample {picks})", inp)
+    if ids != [str(all_rows[i]["site_ID"]) for i in picks]:
+        viol("C15:site-unknown", "the sites built are not the sampled rows, in the sampled order", inp)
+    file_ids = [str(r["site_ID"]) for r in all_rows]
+    if len(set(file_ids)) != len(file_ids):
+        ctx.count("hypothesis:file-ids-not-distinct")      # `site_ids_distinct` does not apply
+    elif len(set(ids)) != len(ids):
+        viol("C15:site-distinct", "two sites with the same id from a file whose ids are distinct", inp)
+    ctx.count("hypothesis:valid-picks")
 
-    def cmp(sig, what, got, want, choice=False):
+    def cmp(sig, what, got, want, choice=False, integer=False):
         c = P.canon_choice if choice else P.canon
+        if integer and isinstance(want, (int, float)) and not isinstance(want, bool):
+            want = int(want)          # durations are whole days: the source applies int()
         if c(got) != c(want):
             viol(sig, f"{what}: in effect {got!r}, most granular specified value {want!r}", inp)
             return False
         return True
 
-    for s in world:
-        srow = site_rows.get(s["sid"])
-        if srow is None:
-            continue
+    for s, row_i in zip(world, picks):
+        srow = all_rows[row_i]
         trow = types.get(srow["site_type"]) if types is not None else None
         eqv = site_equipment(srow, trow)
         numeric = not isinstance(eqv, str)
@@ -520,8 +631,13 @@ def oracle(ctx, case, tables, status, world, picks, collect=None):
                     collect.add((suf, srow.get(me + suf) is not None, bool(trow) and trow.get(me + suf) is not None))
 
         # ---- structure: groups
+        fsig = None
         if numeric:
-            k = int(eqv)
+            q = Fraction(eqv)
+            k = int(q)
+            if q != k:
+                # a non-integer number in the equipment cell: int(q) groups, everything divided by q
+                fsig = "C15:non-integer-equipment"
             r = _first(site_chain(rep_p + tb["srcEpr"]))[1]
             n = _first(site_chain(non_p + tb["srcEpr"]))[1]
             if n is None:
@@ -531,9 +647,9 @@ def oracle(ctx, case, tables, status, world, picks, collect=None):
             else:
                 kind, rate = "Placeholder", max(r, n)
             cnt = math.ceil(Fraction(rate) * 730)
-            n_groups = max(k, 1)
-            div = k if k > 0 else 1
-            per_group = cnt if k == 0 else math.ceil(Fraction(cnt, k))
+            n_groups = 1 if q == 0 else k
+            div = max(n_groups, 1)         # the property: the site value is split over the site's groups
+            per_group = cnt if q == 0 else math.ceil(Fraction(cnt) / q)
             want_groups = [(str(i), None, [(kind, per_group)]) for i in range(n_groups)]
             if collect is not None:
                 collect.add(("placeholder", kind, min(k, 3), min(cnt, 4)))
@@ -567,7 +683,7 @@ def oracle(ctx, case, tables, status, world, picks, collect=None):
                     want = _f(ev) if ev is not None else (None if sv is None else _f(sv) / div)
                     got = g[attr][i]
                     if (None if got is None else _f(got)) != want:
-                        viol(f"C15:scaled:{suf}:{'equipment' if ev is not None else lvl}",
+                        viol(fsig + ":survey" if fsig else f"C15:scaled:{suf}:{'equipment' if ev is not None else lvl}",
                              f"site {s['sid']} group {gname} {me}{suf}: in effect {got!r}, expected {want}", inp)
                     if collect is not None:
                         collect.add((suf, srow.get(me + suf) is not None,
@@ -597,7 +713,7 @@ def oracle(ctx, case, tables, status, world, picks, collect=None):
                     for attr, k, ch in attrs:
                         lvl, want = _first(chain(k))
                         cmp(f"C15:precedence:{k}:{lvl}", f"site {s['sid']} {c['cid']}/{r['sid']} {pre}{k}",
-                            r[attr], want, choice=ch)
+                            r[attr], want, choice=ch, integer=(attr == "dur"))
                         if collect is not None:
                             collect.add((pre + k,) + tuple(v is not None for _, v in chain(k)[:4]))
                     if not rp and (r["rd"] is not None or r["rc"] is not None):
@@ -623,8 +739,8 @@ def oracle(ctx, case, tables, status, world, picks, collect=None):
                     got = r["epr"]
                     lvl = "source" if rv is not None else ("equipment" if ev is not None else slvl)
                     if (None if got is None else _f(got)) != want:
-                        viol(f"C15:scaled:{k}:{lvl}", f"site {s['sid']} {c['cid']}/{r['sid']} {pre}{k}: "
-                             f"in effect {got!r}, expected {want}", inp)
+                        viol(fsig + ":production-rate" if fsig else f"C15:scaled:{k}:{lvl}",
+                             f"site {s['sid']} {c['cid']}/{r['sid']} {pre}{k}: in effect {got!r}, expected {want}", inp)
                     if collect is not None:
                         collect.add((pre + k, rv is not None, ev is not None, srow.get(pre + k) is not None,
                                      bool(trow) and trow.get(pre + k) is not None))
@@ -644,7 +760,10 @@ def oracle(ctx, case, tables, status, world, picks, collect=None):
             if tot_ok[pre] and sv is not None and sv >= 0 and s["groups"]:
                 ctx.count("conservation_evaluated:epr")
                 if tot[pre] != _f(sv):
-                    viol("C15:conservation:production-rate", f"site {s['sid']} {pre}: component rates add up to "
+                    empty = any(sum(c for _, c in comps) == 0 for (_, _, comps) in want_groups)
+                    sig = (fsig + ":production-rate" if fsig else
+                           "C15:conservation:production-rate" + (":empty-group" if empty else ""))
+                    viol(sig, f"site {s['sid']} {pre}: the rates of one un-overridden source per component add up to "
                          f"{tot[pre]}, site value {_f(sv)}", inp)
         for i, me in enumerate(methods):
             for attr, gattr, suf in (("time", "times", tb["eqTimeKey"]), ("cost", "costs", tb["eqCostKey"])):
@@ -663,28 +782,30 @@ def oracle(ctx, case, tables, status, world, picks, collect=None):
                     ctx.count("conservation_evaluated:" + attr)
                     want = _f(sv) if attr == "cost" else round(_f(sv))
                     if (got if attr == "time" else _f(got)) != want:
-                        viol(f"C15:conservation:survey-{attr}", f"site {s['sid']} {me}: survey {attr} {got!r}, site value {sv!r}", inp)
+                        viol(fsig + ":survey" if fsig else f"C15:conservation:survey-{attr}",
+                             f"site {s['sid']} {me}: survey {attr} {got!r}, site value {sv!r}", inp)
 
 
 # ----------------------------------------------------------------------------------------------
 # run / replay
 # ----------------------------------------------------------------------------------------------
-def expected_picks(case):
-    """the rows `sites_in.sample(n)` draws for this case's numpy seed (same call on the same table)"""
-    import numpy as np
-    import pandas as pd
-    import io as _io
-    from harness.adapters import propagate as P
-    buf = _io.StringIO()
-    import csv
-    w = csv.writer(buf)
-    w.writerow(case["sites"]["cols"])
-    for r in case["sites"]["rows"]:
-        w.writerow([P.cell_text(r.get(c)) for c in case["sites"]["cols"]])
-    df = pd.read_csv(_io.StringIO(buf.getvalue()))
-    n = case["n_sites"] if case["n_sites"] is not None else len(df)
-    np.random.seed(case.get("np_seed", 0))
-    return [int(i) for i in df.sample(n).index]
+DEGENERATE = [
+    {"mode": "named", "empty_group": True},                 # an equipment group without components
+    {"mode": "named", "blank_count": True},                 # blank component count: float column, TypeError
+    {"mode": "named", "noninteger_count": True},            # 1.5 components: float column, TypeError
+    {"mode": "numeric", "float_equip": True},               # 2.0 in the equipment cell
+    {"frac_equip": 2.5}, {"frac_equip": 1.5}, {"frac_equip": 0.5},   # non-integer equipment cell
+    {"dup_ids": True},                                      # the sites file repeats a site id
+    {"oversample": True}, {"zero_sample": True},            # sample larger than the file / empty
+    {"mode": "named", "zero_sample": True, "type_equip_only": True},   # empty sample, equipment from the site types
+    {"missing_meth": True},                                 # method file lacks a propagating parameter
+    {"frac_duration": True},                                # durations that are not whole days
+]
+
+
+def degenerate_cases(rng, tables, grid_ok, reps):
+    """the corner shapes of the input space, each forced `reps` times with random content"""
+    return [gen_case(rng, tables, grid_ok, force=dict(f)) for _ in range(reps) for f in DEGENERATE]
 
 
 def grid_ok():
@@ -701,17 +822,17 @@ def grid_ok():
 
 
 def check_case(ctx, case, tables, extra, collect=None):
-    """implementation + oracle for one case; returns (status, world/what, picks, vt)"""
+    """implementation + oracle for one case; returns (status, world/what, picks)"""
     from harness.adapters import propagate as P
-    status, world = P.run_impl(case, extra)
+    status, world, sample = P.run_impl(case, extra)
     if status == "infra":
         raise core.InfraError("CSV round trip: " + world)
-    if status == "ok":
-        # the sample is an input of the model: the rows the implementation actually drew, in its order
-        row_of = {str(r["site_ID"]): i for i, r in enumerate(case["sites"]["rows"])}
-        picks = [row_of.get(s["sid"], 0) for s in world]
-    else:
-        picks = expected_picks(case)
+    # the sample is an input of the model: the rows the implementation actually drew, in its order
+    # (recorded at the DataFrame.sample call); before that call nothing is sampled
+    picks = sample
+    if picks is None and status != "ok":
+        n_rows = len(case["sites"]["rows"])
+        picks = list(range(n_rows)) if (case["n_sites"] is None or case["n_sites"] > n_rows) else None
     oracle(ctx, case, tables, status, world, picks, collect)
     return status, world, picks
 
@@ -726,7 +847,11 @@ def run(ctx):
     ctx.rule = ("case = input folder (sites, site type, equipment, sources CSV) + virtual-world/method dicts from "
                 "the real defaults; each propagating parameter gets a column at each level with probability "
                 "0.25/0.5/0.8 and each cell is filled with probability 0.3/0.6/0.9/1; named equipment (<=3 groups, "
-                "<=6 components) or numeric equipment 0..3 (placeholders), 1..6 sites, sample size None/n; "
+                "<=6 components) or numeric equipment 0..3 (placeholders, also written as floats), 1..6 sites, sample "
+                "size None/n; plus the degenerate family forced on every run (group without components, blank / "
+                "non-integer component count, equipment 2.0 / 0.5 / 1.5 / 2.5, repeated site id, sample of 0 or more "
+                "than the file, method file lacking a propagating parameter, durations that are not whole days) and "
+                "the same shapes at 1-8 % in the random cases; "
                 "non-trivial = some level below the global one specifies the parameter on the chain; distinct by "
                 "(parameter, subset of levels specifying it) and placeholder/group shapes")
     core.lean_stage(ctx, MODULE, FILE, drivers=["drv_propagate"])
@@ -735,10 +860,17 @@ def run(ctx):
     if len(ok_grid[False]) < 100 or len(ok_grid[True]) < 30:
         raise core.InfraError("pandas does not read the production-rate grid back exactly")
 
+    ctx.obligations.append("sample-call-shape")
+    if extra["samplePlain"]:
+        ctx.discharged.append("sample-call-shape")
+    else:
+        ctx.broke("sample-call-shape", "generate_infrastructure samples with %s, not <frame>.sample(<n>): the "
+                  "duplicate-free sample the model takes as input is no longer what the code draws" % extra["sampleCall"])
     micro_correspondence(ctx, tables)
 
-    n_cases = ctx.pick(900, 10000)
-    cases = []
+    n_cases = ctx.pick(800, 9000)
+    cases = degenerate_cases(ctx.rng, tables, ok_grid, ctx.pick(1, 8))
+    ctx.count("degenerate_family", len(cases))
     forced = [{"mode": "named"}, {"mode": "numeric"}, {"mode": "named", "reject": True}, {"mode": "numeric", "reject": True}]
     for i in range(n_cases):
         cases.append(gen_case(ctx.rng, tables, ok_grid, force=forced[i] if i < len(forced) else None))
@@ -752,23 +884,30 @@ def run(ctx):
         ctx.count("impl:" + status)
         ctx.count("mode:" + case["mode"])
         vt = P.ValTable()
-        ls = P.model_lines(case, tables, vt, picks)
+        n_rows = len(case["sites"]["rows"])
+        ls = P.model_lines(case, tables, vt, picks if picks is not None else list(range(n_rows)))
+        ls.insert(len(ls) - 1, "sample %d %s" % (n_rows, "-" if case["n_sites"] is None else case["n_sites"]))
         spans.append((len(lines), len(ls)))
         lines += ls
         impl.append((status, world, vt, len(ctx.violations) > before))
     replies = core.LeanDriver("drv_propagate").run(lines)
     for case, (start, n), (status, world, vt, violated) in zip(cases, spans, impl):
         rs = replies[start:start + n]
-        if any(r != "ok" for r in rs[:-1]):
+        if any(r != "ok" for r in rs[:-2]):
             raise core.InfraError("driver rejected an input line: %r" % [l for l, r in zip(lines[start:start + n], rs) if r != "ok"][:2])
-        ml = rs[-1]
+        sl, ml = rs[-2], rs[-1]
+        if sl == "reject":
+            ml = "reject:sample-larger-than-file"
         if status == "ok":
-            il = P.dump_world(world, vt)
-        elif status == "reject":
+            il = P.dump_world(world, vt, case, tables)
+            if sl != "ok %d" % len(world):
+                ctx.disagree("propagate-sample", {"case": case}, sl, "ok %d" % len(world))
+        elif status == "reject" or (status == "crash" and not violated):
+            # sys.exit, or one of the exceptions the code is expected to refuse the input with
             il = "reject"
             ml = "reject" if ml.startswith("reject:") else ml
         else:
-            continue  # crash: already an oracle violation; the model has no such outcome
+            continue  # unexpected crash: already an oracle violation; the model has no such outcome
         if il != ml:
             ctx.disagree("propagate", {"case": case}, ml[:2000], il[:2000])
             ctx.count("disagree")
@@ -815,6 +954,25 @@ def micro_correspondence(ctx, tables):
         for k in keys:
             lines.append("unprefix %s %s" % (pre, k))
             want.append(("1" if pre in k else "0") + " " + re.sub(pre, "", k))
+    # `sites_in.sample(n)` (the call is checked by the extractor to have no replace=/weights=): for every
+    # file length 1..6 and every requested size the drawn rows are a valid sample (n distinct rows of the
+    # file) or the call raises, exactly when the model says so
+    import numpy as np
+    import pandas as pd
+    for rows in range(1, 7):
+        df = pd.DataFrame({"site_ID": [10 * i + 7 for i in range(rows)], "x": ["a"] * rows})
+        for n in [None] + list(range(0, rows + 3)):
+            for seed in range(3):
+                np.random.seed(1000 * rows + 10 * (n or 0) + seed)
+                try:
+                    drawn = [int(i) for i in df.sample(len(df) if n is None else n).index]
+                    k = len(df) if n is None else n
+                    valid = len(drawn) == k and len(set(drawn)) == k and all(0 <= i < rows for i in drawn)
+                    res = ("ok %d" % k) if valid else "invalid-sample %r" % (drawn,)
+                except ValueError:
+                    res = "reject"
+                lines.append("sample %d %s" % (rows, "-" if n is None else n))
+                want.append(res)
     got = core.LeanDriver("drv_propagate").run(lines)
     for l, g, w in zip(lines, got, want):
         ctx.evaluations += 1
